@@ -2240,6 +2240,9 @@ class Frame(object):
                     its = merge_consts(a.items)
                     if all(i[0] == 'C' for i in its):
                         return Const(sum(len(i[1]) for i in its))
+                    # items of fixed width (constant octets, single octets, integers of a literal width) have a known length
+                    if its and all(i[0] in ('C', 'BYTE') or (i[0] == 'INT' and str(i[1]).isdigit()) for i in its):
+                        return Const(sum(len(i[1]) if i[0] == 'C' else 1 if i[0] == 'BYTE' else int(i[1]) for i in its))
                 if isinstance(a, ListV):
                     return Const(len(a.elems))
                 if isinstance(a, Const) and isinstance(a.value, (bytes, bytearray, str, tuple, list)):
